@@ -146,9 +146,15 @@ def overflow_finding(open_f):
     return None
 
 
+EMPTY_PANIC = re.compile(r'panic\s*(?:<[^>()]*>)?\s*\(\s*""\s*\)')
+
+
 def match_known(open_f, sources, kind, detail):
-    """Signature predicates over a failing accepted program. Returns a finding id or None."""
+    """Signature predicates over a failing accepted program. Returns a finding id or None
+    ("ASKED" = not a failure: the program itself calls Process.panic with the empty message)."""
     text = "\n".join(sources.values())
+    if kind in ("wasm-run", "ts-run") and "no arm handles" in detail and EMPTY_PANIC.search(mask_noncode_keep_strings(text)):
+        return "ASKED"
     lits = STRLIT.findall(text)
     if kind == "compile-panic":
         if "overflow" in detail and overflow_finding(open_f):
@@ -178,6 +184,9 @@ def report(ctx, open_f, descr, prog, ans, stats, shrink=None):
     unknown = []
     for kind, detail in fails:
         fid = match_known(open_f, prog["sources"], kind, detail)
+        if fid == "ASKED":
+            stats["asked_empty_panic"] = stats.get("asked_empty_panic", 0) + 1
+            continue
         if fid:
             stats["known_hits"][fid] = stats["known_hits"].get(fid, 0) + 1
             known_once(ctx, open_f[fid], f"{descr}: {kind}: {detail}"[:240])
@@ -533,7 +542,7 @@ def impl_match_answer(ans, nvals):
             ends.append("fb" if e.startswith("panic:") and e[6:].strip() == "" else "ft:" + e[:60])
         out[b] = ends
     if out["wasm"] != out["ts"]:
-        return None, f"backends disagree: wasm {out['wasm']} ts {out['ts']}"
+        return "1", ("TSDIFF", out["wasm"], out["ts"])
     return "1", out["wasm"]
 
 
@@ -595,6 +604,22 @@ def check_matches(ctx, rng, n, stats, open_f):
             return
         if iends is None:
             continue
+        if isinstance(iends, tuple):
+            # the two back ends took different arms
+            _, w_ends, t_ends = iends
+            ts_faults = [e for e in t_ends if e == "fb" or e.startswith("ft")]
+            if acc == d.get("acc") and w_ends == mends and not ts_faults and "C18-F10" in open_f:
+                # wasm = model; TypeScript takes the arm of a payload-free variant for an unboxed
+                # single-field variant whose payload coerces (`[0] == 0`): C18-F10 (loose `==` tag test)
+                known_once(ctx, open_f["C18-F10"], f"generated match: wasm/model {w_ends}, TypeScript {t_ends}")
+                stats["known_hits"]["C18-F10"] = stats["known_hits"].get("C18-F10", 0) + 1
+                continue
+            ctx.violation(f"match: back ends disagree: wasm {w_ends} ts {t_ends} (model {mends})",
+                          {"protocol": "match", "line": line, "program": prog, "answer": a, "model": m},
+                          no_input=not ts_faults)
+            if len(ctx.violations) > 3:
+                return
+            continue
         went_wrong = [e for e in iends if e == "fb" or e.startswith("ft")]
         if acc == "1" and went_wrong:
             # the property itself fails on the real code
@@ -647,6 +672,26 @@ def test_entries(srcs):
     imp = dict((m.group(2), m.group(1)) for m in re.finditer(r"import\s*\{\s*([A-Za-z0-9_]+)\s*\}\s*from\s+(tests\.[A-Za-z0-9_]+)", all_t))
     used = set(re.findall(r"([A-Za-z0-9_]+)\.run\b", all_t))
     return {mod: cls for mod, cls in imp.items() if cls in used and mod in srcs}
+
+
+def mask_noncode_keep_strings(text):
+    """comments blanked, strings kept"""
+    out, i, n = [], 0, len(text)
+    while i < n:
+        if text.startswith("//", i):
+            j = text.find("\n", i); j = n if j < 0 else j
+            i = j; continue
+        if text.startswith("/*", i):
+            j = text.find("*/", i + 2); j = n if j < 0 else j + 2
+            i = j; continue
+        if text[i] == '"':
+            j = i + 1
+            while j < n and text[j] != '"':
+                j += 2 if text[j] == "\\" else 1
+            j = min(n, j + 1)
+            out.append(text[i:j]); i = j; continue
+        out.append(text[i]); i += 1
+    return "".join(out)
 
 
 def mask_noncode(text):
